@@ -141,6 +141,10 @@ def run(repo, run, tier):
     r7 = run.rule("C01.7", "the generic stage loop evaluates every stage i of the table at (t0 + c_i h, y0 + h sum_j a_ij k_j) and stores it at slot i "
                            "(no stage is skipped or carried over from another call): the computed step is the method the order conditions were checked for", floor=4)
     compute_step_part(repo, run, r7, rule_id="C01.7")
+    # ... and, for the implicit methods, only if the stage SYSTEM handed to the nonlinear solver is the table's: every stage i evaluated at
+    # (t0 + c_i h, y0 + h sum_j a_ij k_j); a stage pinned to a cached slope (e.g. the initial slope whenever c_i = 0) solves another method's equations
+    from .c02 import stage_args
+    stage_args(repo, run, rule_id="C01.8")
 
 
 # ------------------------------------------------------------------------------------------------
